@@ -252,9 +252,8 @@ PAIRING_ERRORS = {"absent": None, "1": b"\x01", "2": b"\x02", "3": b"\x03", "4":
 
 
 def pairing_reply(state, err, extra, order):
-    items = []
-    if state != "absent":
-        items.append((T_STATE, bytes([2 if state == "expected" else int(state)])))
+    from props.c04 import state_items
+    items = state_items(state, 2)
     if PAIRING_ERRORS[err] is not None:
         items.append((T_ERROR, PAIRING_ERRORS[err]))
     if extra:
@@ -266,8 +265,7 @@ def pairing_reply(state, err, extra, order):
 
 def run_c04_ble(case, R):
     op, state, err = case["op"], case["state"], case["err"]
-    if state not in ("absent", "expected") and int(state) == 2:
-        state = "expected"
+    state = "expected" if state == "2" else state
     error_present = PAIRING_ERRORS[err] is not None
     control = not error_present and state in ("absent", "expected")
     R.nt(not control)
@@ -279,7 +277,18 @@ def run_c04_ble(case, R):
             p = w.pairing
             await p.get_characteristics([(1, 10)])
             w.acc.pairings_reply = pairing_reply(state, err, case.get("extra"), case.get("order", "spec"))
-            what = f"BLE {op} state={state} error={err} extra={case.get('extra')} order={case.get('order')}"
+            what = f"BLE {op} state={state} error={err} extra={case.get('extra')} order={case.get('order')} shutdown-in-flight={bool(case.get('shutdown'))}"
+            fired = []
+            if case.get("shutdown"):
+                # the owner shuts the pairing down while the request is with the accessory
+                w.client.disconnect_delay = 1.0         # the link is still up when the accessory's reply is read
+
+                def fault(acc, h, opcode, iid, body):
+                    if h.kind == "pairings" and not fired:
+                        fired.append(loop.create_task(p.shutdown()))
+                        fired.append(len(w.client.log))
+                    return None
+                w.acc.fault = fault
             try:
                 if op == "add":
                     res = await p.add_pairing("other-controller", "07" * 32, "User")
@@ -288,8 +297,14 @@ def run_c04_ble(case, R):
                 outcome = ("ok", res)
             except Exception as e:  # noqa: BLE001
                 outcome = ("raise", e)
+            if fired:
+                await asyncio.gather(fired[0], return_exceptions=True)
+                if not any(kind == "r" and iid_ == 4 for kind, iid_, _ in w.clients[0].log[fired[1]:]):
+                    R.exclude("the accessory's reply was not read before the link went down")
+                    return
+                R.cls("ble-pairings:shutdown-in-flight")
             if control:
-                if outcome[0] != "ok":
+                if outcome[0] != "ok" and not fired:
                     R.fail("C04.control-cell-fails", f"{what}: {type(outcome[1]).__name__}: {outcome[1]}", step="ble-" + op)
             elif outcome[0] == "ok":
                 R.fail("C04.error-reply-succeeds", f"{what}: reported as done ({outcome[1]!r})", step="ble-" + op, state="absent" if state == "absent" else ("expected" if state == "expected" else "wrong"))
@@ -303,15 +318,17 @@ def run_c04_ble(case, R):
 
 def enum_c04_ble(tier):
     for op in ("add", "remove"):
-        for state in ["absent", "expected"] + [str(s) for s in range(0, 8) if s != 2]:
+        for state in ["absent", "expected"] + [str(s) for s in range(0, 8) if s != 2] + ["empty", "exp+byte", "dup-adjacent", "255"]:
             for err in PAIRING_ERRORS:
                 for extra in (False, True):
                     for order in ("spec", "reversed"):
                         yield {"op": op, "state": state, "err": err, "extra": extra, "order": order}
+                if tier == "ble":
+                    yield {"op": op, "state": state, "err": err, "extra": False, "order": "spec", "shutdown": True}
 
 
-C04_BLE_LAYERS = [Layer("ble-pairings", run_c04_ble, enumerate=enum_c04_ble, exhaustive=True,
-                        space="add/remove x 9 states x 13 errors x other fields present/absent x 2 orders", min_nontrivial=800)]
+C04_BLE_LAYERS = [Layer("ble-pairings", run_c04_ble, enumerate=lambda tier: enum_c04_ble("ble"), exhaustive=True,
+                        space="add/remove x 13 states x 13 errors x other fields present/absent x 2 orders, plus every state x error cell with pairing.shutdown() called while the request is in flight", min_nontrivial=800)]
 
 
 # ---------------------------------------------------------------- C01: pair-verify through BlePairing (full, resumed, faulty)
@@ -487,8 +504,7 @@ def run_c04_ip(case, R):
     from vlib.ipworld import IpWorld
     from vlib.refhap import tlv_enc
     op, state, err = case["op"], case["state"], case["err"]
-    if state not in ("absent", "expected") and int(state) == 2:
-        state = "expected"
+    state = "expected" if state == "2" else state
     error_present = PAIRING_ERRORS[err] is not None
     control = not error_present and state in ("absent", "expected")
     R.nt(not control)
@@ -500,13 +516,14 @@ def run_c04_ip(case, R):
 
         def hook(conn, req):
             if req.target == "/pairings":
-                conn.send_http(case.get("http", 200), "OK", tlv_enc(reply), ctype="application/pairing+tlv8")
+                ct = HTTP_CTYPES[case.get("ctype", "exact")]
+                conn.send_http(case.get("http", 200), "OK", tlv_enc(reply), ctype=ct[0], ctype_name=ct[1])
                 return True
             return False
         w.acc.on_request = hook
         try:
             p = w.pairing
-            what = f"IP {op} state={state} error={err} extra={case.get('extra')} order={case.get('order')} http={case.get('http', 200)}"
+            what = f"IP {op} state={state} error={err} extra={case.get('extra')} order={case.get('order')} http={case.get('http', 200)} content-type={case.get('ctype', 'exact')}"
             try:
                 if op == "add":
                     res = await p.add_pairing("other-controller", "07" * 32, "User")
@@ -532,15 +549,62 @@ def run_c04_ip(case, R):
     vtime.run(main)
 
 
+HTTP_CTYPES = {"exact": ("application/pairing+tlv8", "Content-Type"), "charset": ("application/pairing+tlv8; charset=utf-8", "Content-Type"),
+               "case": ("Application/Pairing+TLV8", "Content-Type"), "lower-name": ("application/pairing+tlv8", "content-type"),
+               "octets": ("application/octet-stream", "Content-Type"), "json": ("application/hap+json", "Content-Type"), "absent": (None, "Content-Type")}
+
+
 def enum_c04_ip(tier):
     for c in enum_c04_ble(tier):
         yield c
-        if c["err"] in ("2", "6") and c["state"] == "expected" and not c["extra"]:
-            yield dict(c, http=470)
+        if c["err"] in ("2", "6", "1") and c["state"] in ("expected", "absent", "3") and not c["extra"] and c["order"] == "spec":
+            for http in (200, 400, 470, 500):
+                for ct in HTTP_CTYPES:
+                    if (http, ct) != (200, "exact"):
+                        yield dict(c, http=http, ctype=ct)
+
+
+def run_c04_ip_verify(case, R):
+    """pair-verify over the IP connection answered with an error code, under every HTTP status / Content-Type the reply may carry."""
+    from vlib.ipworld import IpWorld
+    R.nt()
+    R.cls("ip-verify:" + case["step"])
+
+    async def main(loop):
+        w = IpWorld(loop)
+        ct = HTTP_CTYPES[case["ctype"]]
+        w.acc.error_http = (case["http"], "X", ct[0], ct[1])
+        w.acc.verify_policy = lambda conn: f"error-{case['step']}:{case['code']}"
+        what = f"IP pair-verify {case['step']} error={case['code']} http={case['http']} content-type={case['ctype']}"
+        try:
+            p = w.pairing
+            try:
+                await asyncio.wait_for(p.list_accessories_and_characteristics(), 30)
+                outcome = ("ok", None)
+            except Exception as e:  # noqa: BLE001
+                outcome = ("raise", e)
+            secure = [r for r in w.acc.all_requests if r.target != "/pair-verify"]
+            if outcome[0] == "ok" or p.connection.is_secure or secure:
+                R.fail("C04.error-reply-succeeds", f"{what}: the session was treated as established (outcome {outcome[0]}, is_secure {p.connection.is_secure}, "
+                                                   f"{len(secure)} further requests sent)", step="ip-verify-" + case["step"], state="expected")
+            await p.shutdown()
+        finally:
+            w.restore()
+    vtime.run(main)
+
+
+def enum_c04_ip_verify(tier):
+    for step in ("m2", "m4"):
+        for code in (1, 2, 3, 5, 6, 7, 9):
+            for http in (200, 400, 470, 500):
+                for ct in HTTP_CTYPES:
+                    yield {"step": step, "code": code, "http": http, "ctype": ct}
 
 
 C04_IP_LAYERS = [Layer("ip-pairings", run_c04_ip, enumerate=enum_c04_ip, exhaustive=True,
-                       space="add/remove x 9 states x 13 errors x other fields present/absent x 2 orders (+ HTTP 470 variants)", min_nontrivial=800)]
+                       space="add/remove x 13 states x 13 errors x other fields present/absent x 2 orders (+ HTTP status 200/400/470/500 x 7 Content-Type spellings for 9 cells)", min_nontrivial=800),
+                 Layer("ip-verify-http", run_c04_ip_verify, enumerate=enum_c04_ip_verify, exhaustive=True,
+                       space="pair-verify M2/M4 error replies x 7 codes x HTTP status 200/400/470/500 x 7 Content-Type spellings through the IP connection", min_nontrivial=300)]
 
 
 # ---------------------------------------------------------------- C01: pair-verify through the IP connection
